@@ -296,6 +296,7 @@ pub fn gen_store_cfg(r: &mut Rng) -> StoreCfg {
             1 => Capability::ForcedDiscoverable,
             _ => Capability::Full,
         },
+        ignore_ids: false,
     }
 }
 
